@@ -163,8 +163,8 @@ class MFINFO(Aggregate):
         # Keep input free of side effects
         elem = deepcopy(elem)
 
-        yld = elem.find("./YIELD")
-        if yld is not None:
+        # Rename every occurrence, so that a repeated <YIELD> is seen as a duplicate
+        for yld in elem.findall("./YIELD"):
             logger.debug("Renaming <YIELD> to <YLD>")
             yld.tag = "YLD"
 
@@ -227,8 +227,8 @@ class STOCKINFO(Aggregate):
         # Keep input free of side effects
         elem = deepcopy(elem)
 
-        yld = elem.find("./YIELD")
-        if yld is not None:
+        # Rename every occurrence, so that a repeated <YIELD> is seen as a duplicate
+        for yld in elem.findall("./YIELD"):
             logger.debug("Renaming <YIELD> to <YLD>")
             yld.tag = "YLD"
 
